@@ -164,7 +164,7 @@ inline Req make_good(int id, int client, int origin, int64_t bits, int resp_code
 inline Req make_bad(int id, int client, int origin, int kind, bool wait, OriginView const& ov)
 {
 	Req r;
-	r.id = id; r.client = client; r.origin = origin; r.bad = true; r.bad_kind = kind % 6; r.wait = wait;
+	r.id = id; r.client = client; r.origin = origin; r.bad = true; r.bad_kind = kind % 9; r.wait = wait;
 	std::string const authority = (ov.force_name ? ov.name : ov.literal) + ":" + std::to_string(ov.port);
 	std::string const q = "/q" + std::to_string(id);
 	switch (r.bad_kind)
@@ -174,7 +174,12 @@ inline Req make_bad(int id, int client, int origin, int kind, bool wait, OriginV
 		case 2: r.text = "GET http://" + authority + q + " HTTP/1.1\r\nthis-line-has-no-colon\r\n\r\n"; break; // header without ':'
 		case 3: r.text = "GET " + q + " HTTP/1.1\r\nHost: " + authority + "\r\n\r\n"; break;            // origin form
 		case 4: r.text = "OPTIONS * HTTP/1.1\r\nHost: " + authority + "\r\n\r\n"; break;               // asterisk form
-		default: r.text = "GET //" + authority + q + " HTTP/1.1\r\n\r\n"; break;                        // network-path reference, no scheme
+		case 5: r.text = "GET //" + authority + q + " HTTP/1.1\r\n\r\n"; break;                        // network-path reference, no scheme
+		// absolute form, but what follows the host's colon is no usable port: the proxy may call that malformed (close) or
+		// an origin it cannot connect (503) - not something else
+		case 6: r.text = "GET http://" + (ov.force_name ? ov.name : ov.literal) + ":" + q + " HTTP/1.1\r\n\r\n"; break;            // empty port
+		case 7: r.text = "GET http://" + (ov.force_name ? ov.name : ov.literal) + ":http" + q + " HTTP/1.1\r\n\r\n"; break;        // a word
+		default: r.text = "GET http://" + (ov.force_name ? ov.name : ov.literal) + ":99999999999999999999" + q + " HTTP/1.1\r\n\r\n"; break; // no int holds it
 	}
 	return r;
 }
